@@ -553,12 +553,12 @@ fn raw_string<'a>() -> impl Parser<'a, ParserInput<'a>, Literal, ParserError<'a>
 
 fn boolean<'a>() -> impl Parser<'a, ParserInput<'a>, Literal, ParserError<'a>> {
     choice((just("true").to(true), just("false").to(false)))
-        .then_ignore(end_expr())
+        .then_ignore(end_word())
         .map(Literal::Boolean)
 }
 
 fn null<'a>() -> impl Parser<'a, ParserInput<'a>, Literal, ParserError<'a>> {
-    just("null").to(Literal::Null).then_ignore(end_expr())
+    just("null").to(Literal::Null).then_ignore(end_word())
 }
 
 fn value_and_unit<'a>() -> impl Parser<'a, ParserInput<'a>, Literal, ParserError<'a>> {
@@ -743,6 +743,15 @@ fn multi_quoted_string<'a>(
             }
         }
     })
+}
+
+/// The end of a word: whatever follows cannot continue an identifier. The literals `true`,
+/// `false` and `null` are words, so `true+1` starts with the same token as `true + 1`,
+/// while `truex` and `null_count` stay identifiers.
+fn end_word<'a>() -> impl Parser<'a, ParserInput<'a>, (), ParserError<'a>> {
+    any()
+        .filter(|c: &char| c.is_alphanumeric() || *c == '_')
+        .not()
 }
 
 fn end_expr<'a>() -> impl Parser<'a, ParserInput<'a>, (), ParserError<'a>> {
